@@ -4,15 +4,14 @@
   * `fragF` / `inSchemaFragment`: declaration-level fragment of `schema_admits_partial`.  Every
     excluded kind is named here:
       - Deque / Anything / NoneField / non-String map keys / non-scalar enum literals: the mapping raises;
-      - `exclusiveMaximum` without `maximum`, non-positive `multiplesOf`: ill-formed emission (findings);
-      - a constrained map key (`patternProperties` emission is ill-formed: finding);
+      - `multiplesOf = 0`;
       - a *nested* field-wrapper class (one required field, no additional properties): its schema is
         the bare field's but it serializes as an object (finding);
       - OneOf / AllOf / NotField (need the exactness direction), untyped Set, `uniqueItems` on
         non-scalar or positional items, AnyOf over non-scalar options: corresponded only.
   * `regF` / `inAdmitRegion`: (declaration, value)-level region: the value is deeply well-formed and
     outside the known-finding regions (bool stored in a numeric / enum field, value inside the gap
-    of a sign-only float bound, homogeneous tuple longer than one element, required or defaulted
+    of a sign-only float bound, required or defaulted
     field absent or None, `AnyOf[X, None]` holding None inside a container).
   * `wfFragF` / `inWfFragment`: declaration-level fragment of `schema_wellformed_partial`.
   * `exactCls` / `inExactFragment`: the exact sub-fragment of `schema_exact_partial`.
@@ -28,9 +27,9 @@ def nodupS : List String → Bool
   | [] => true
   | x :: xs => !xs.contains x && nodupS xs
 
-/-- `exclusiveMaximum` needs `maximum`; `multipleOf` must be positive -/
+/-- `multiplesOf` is not 0 (it is exported as its absolute value; draft 4 wants `multipleOf > 0`) -/
 def numOptsOk (o : NumOpts) : Bool :=
-  (!o.exclMax || o.max.isSome) && (match o.mult with | some m => decide (0 < m) | none => true)
+  match o.mult with | some m => m != 0 | none => true
 
 /-- kinds whose serialization is the value itself -/
 def plainScalar : FieldDecl → Bool
@@ -59,10 +58,10 @@ def fragF : FieldDecl → Bool
   | .seqPos k fs _ sz => k == .list && !fs.isEmpty && fragL fs && !sz.uniq
   | .setAny _ _ => false
   | .setOf _ _ _ => false
-  | .tupleOf f _ => fragF f
+  | .tupleOf f u => fragF f && !u
   | .tuplePos fs u => !fs.isEmpty && fragL fs && !u
   | .mapAny _ => true
-  | .mapOf k v _ => plainKey k && fragF v
+  | .mapOf k v _ => isStringField k && fragF v
   | .struct c fields defaults =>
     !collapses c (fields.map (·.1)) && nodupS (fields.map (·.1)) && defaults.isEmpty && fragP fields
   | .anyOf fs =>
@@ -137,7 +136,7 @@ def regF (O : Oracles) : FieldDecl → PyVal → Bool
     | .set _ xs => PyVal.pyNodup xs && xs.all (regF O f)
     | _ => false)
   | .tupleOf f _, v => (match v with
-    | .tuple xs => decide (xs.length ≤ 1) && xs.all (regF O f)
+    | .tuple xs => xs.all (regF O f)
     | _ => false)
   | .tuplePos fs _, v => (match v with | .tuple xs => regZip O fs xs | _ => false)
   | .mapAny _, _ => true
@@ -310,8 +309,7 @@ def classRefsFaithfulB (D : Defs) : FieldDecl → Bool
 mutual
 /-- declarations whose emitted schema is a well-formed draft-4 document after the dialect fix.
     Excluded (each a finding or a raise): classes without any required or defaulted field
-    (`required: []`), `exclusiveMaximum` without `maximum`, non-positive `multiplesOf`, constrained
-    map keys, empty positional `items`, empty / duplicated enums, raising kinds; and, corresponded
+    (`required: []`), `multiplesOf = 0`, empty positional `items`, empty / duplicated enums, raising kinds; and, corresponded
     only: classes with defaults, an inline StructureReference in the field-wrapper form. -/
 def wfFragF : FieldDecl → Bool
   | .number o => numOptsOk o
@@ -329,7 +327,7 @@ def wfFragF : FieldDecl → Bool
   | .tupleOf f _ => wfFragF f
   | .tuplePos fs _ => !fs.isEmpty && wfFragL fs
   | .mapAny _ => true
-  | .mapOf k v _ => plainKey k && wfFragF v
+  | .mapOf k v _ => isStringField k && wfFragF v
   | .struct c fields defaults =>
     (if collapses c (fields.map (·.1)) then !c.inline
      else !(schemaRequired c defaults).isEmpty && nodupS (schemaRequired c defaults))
